@@ -31,7 +31,7 @@ FUNCTIONS = [
     "unified_planning.model.mixins.fluents_set:FluentsSetMixin.add_fluent",
     "unified_planning.model.mixins.initial_state:InitialStateMixin.set_initial_value",
     "unified_planning.model.mixins.initial_state:InitialStateMixin.initial_value",
-    "unified_planning.model.mixins.initial_state:InitialStateMixin.initial_values",
+    "unified_planning.model.mixins.initial_state:InitialStateMixin.initial_values.fget",
     "unified_planning.model.transition:UntimedEffectMixin.add_effect",
     "unified_planning.model.transition:UntimedEffectMixin.add_increase_effect",
     "unified_planning.model.mixins.timed_conds_effs:TimedCondsEffs.add_effect",
